@@ -166,6 +166,22 @@ def ground_axioms(formulas, rounds=2, pow_as_explog=True, max_pairs=400):
                     dm = T('exp', (df,), 'R') if ir._num(df) is None else None
                     if dm is not None and dm in universe:
                         emit(ir.eq(t, ir.mul(s, dm)))
+        # inverse pairs *through an equality*:  A == exp(b) => log(A) == b ;  A == log(b), b > 0 => exp(A) == b
+        for lg in by['log']:
+            for ex in by['exp']:
+                if npairs > max_pairs:
+                    break
+                npairs += 1
+                A, b = lg.args[0], ex.args[0]
+                if A is not ex:
+                    emit(ir.implies(ir.eq(A, ex), ir.eq(lg, b)))
+                B = ex.args[0]
+                if B is not lg:
+                    emit(ir.implies(ir.and_(ir.eq(B, lg), ir.gt(lg.args[0], 0)), ir.eq(ex, lg.args[0])))
+                nb = ir.neg(B)
+                if nb is not lg and B.op != 'const':
+                    # exp(-log x) == 1/x
+                    emit(ir.implies(ir.and_(ir.eq(nb, lg), ir.gt(lg.args[0], 0)), ir.eq(ir.mul(ex, lg.args[0]), 1)))
         for s, t in itertools.combinations(by['pow'], 2):
             if npairs > max_pairs:
                 break
@@ -178,8 +194,9 @@ def ground_axioms(formulas, rounds=2, pow_as_explog=True, max_pairs=400):
                 emit(ir.implies(ir.and_(pos, ir.lt(x1, 1), ir.lt(y1, y2)), ir.gt(s, t)))
                 emit(ir.implies(ir.and_(pos, ir.lt(x1, 1), ir.lt(y2, y1)), ir.gt(t, s)))
                 sm = ir.pow_(x1, ir.add(y1, y2))
-                if sm in universe or sm.op == 'const' or sm is x1:
+                if sm in universe or sm.op == 'const' or sm is x1 or _round == 0:
                     emit(ir.implies(pos, ir.eq(ir.mul(s, t), sm)))
+                    universe.update(ir.subterms(sm))
                 df = ir.pow_(x1, ir.sub(y1, y2))
                 if df in universe:
                     emit(ir.implies(pos, ir.eq(s, ir.mul(t, df))))
